@@ -36,6 +36,7 @@ QUICK = [
     ("disk-write", (4,), 100, "diskwr,entry"),
     ("disk-shrink", (2, 4), 40, "diskshrink,disk,ustar"),        # a file truncated under the reader: abort path, stale descriptor
     ("version", (2,), 200, "version"),                         # static str (crashes)
+    ("wide-names", (2, 4), 400, "wname,entry"),                # hidden conversion state of the C library (UTF-8 locale)
     ("mix", (8,), 100, "ustar,wrzip,cpio,disk,entry,newc,zip,Z"),
 ]
 THOROUGH_EXTRA = [
@@ -59,6 +60,8 @@ REACH = {"default_inode": TAR_WL, "default_dev": TAR_WL, "decode_table": {"pax"}
          "crc16init": {"lha"}, "crc16tbl": {"lha"}, "lst": {"disk", "diskold"}, "can_dupfd_cloexec": {"diskold"},
          "dos_initialised": {"wrzip", "write"}, "dos_max_unix": {"wrzip", "write"}, "dos_min_unix": {"wrzip", "write"},
          "str": {"version"}}
+# rows "libc:<function>" of the table (hidden state of the C library): the workloads whose results pass through them
+LIBC_REACH = {"libc:mbrtowc(NULL)": {"wname"}, "libc:wcrtomb(NULL)": {"wname", "entry"}, "libc:mbtowc": {"wname"}, "libc:wctomb": {"wname", "entry"}}
 # statics whose value can reach a handle's results (debug_index, can_dupfd_cloexec, dos_* cannot: same values / never read back)
 FLOWS = {"default_inode", "default_dev", "decode_table", "crc16init", "crc16tbl", "lst", "str"}
 # first-use races exist once per process: repeat those runs
@@ -265,6 +268,13 @@ def report(rep, table, cls, seen, other, problems):
                 what += "; " + " | ".join(hit["notes"])[:200]
             rep.violation("C13:%s" % sym, what + " || " + cl_txt, replay_of(hit), found_input=True)
         else:
+            eff = [(name, k, r, note) for name, k, r, note in problems if set(r["spec"]["workloads"].split(",")) & LIBC_REACH.get(sym, set())]
+            if eff:
+                name, k, r, note = eff[0]
+                rep.violation("C13:%s" % sym, "%s (%s): no lock, and with %d threads on independent handles (%s) %s || %s" %
+                              (sym, obj, k, r["spec"]["workloads"], " | ".join(note)[:300], cl_txt),
+                              dict(run=r["spec"], cmd=r["cmd"], stderr=r["stderr"][-1500:]), found_input=True)
+                continue
             rep.violation("C13:%s" % sym, "static %s: obligation statics_ok broken, no race observed on it in this run || %s" % (sym, cl_txt),
                           dict(broken="statics_ok", object=obj, symbol=sym, section=sec), found_input=False)
     intable = set(s for _, s, _, _ in table)
